@@ -7,6 +7,7 @@
 import Gts.Props.C15
 import Gts.Lemmas.CliSplitCirc
 import Gts.Lemmas.CliExtractFeat
+import Gts.Lemmas.CliExtractWrap
 namespace Gts.C15
 open Gts Loc Reg
 
@@ -508,9 +509,10 @@ branch — `gts.Rotate(seq, -(h + L))` (C04, the re-origin), then the forward sl
 so, exactly as for the first piece of circular split, a feature whose ROTATED location overlaps the
 window is present with unchanged key and qualifiers and denotes exactly its former residues inside
 the window `h + L … L, 0 … t`, at their offset in the emitted record (`Cli.cwinMap`).  Guards: the
-domain of the `Normalize` law and K2 in no step (`Cli.cwinAbs`).  (Outside the harness domain, which
-keeps locators whose ends lie inside the record; a BACKWARD wrap-around segment and wrap-around
-parts of composite regions are not covered.) -/
+domain of the `Normalize` law and K2 in no step (`Cli.cwinAbs`).  (A BACKWARD wrap-around segment and a
+wrap-around part of a composite region: `extract_wrap_segment_piece_partial`,
+`extract_wrap_part_feature_partial` below; the harness sends such locators on circular records since
+then.) -/
 theorem extract_wrap_segment_feature_partial (s : Seq) (h t : Int) (hh : h < 0) (hL : -s.len ≤ h)
     (ht0 : 0 ≤ t) (htw : t < h + s.len)
     (f : Feature) (hf : f ∈ s.feats) (hwf : f.loc.wf = true) (hnn : f.loc.nonneg = true)
@@ -546,6 +548,157 @@ example : gene1.loc.wf = true ∧ gene1.loc.nonneg = true ∧
     (((seg (-3) 2).locate s1).feats.filter (·.key = "gene")).map (·.loc.den) =
       [[(1, true), (0, true), (4, true)]] ∧
     ((seg (-3) 2).locate s1).bytes = [67, 71, 84, 65, 67] := by decide
+
+/-! ### regions that reach across the origin of a circular record
+
+What `Region.Locate` accepts there (found on the code, `Segment.Locate` → `gts.Slice`; `lo = min h t`,
+`hi = max h t`, `L` the length): a negative end has `L` added ONCE, then `end < start` means "rotate by
+`-start`, cut `[0, L - start + end)`".  So a leaf reads the window `lo + L … L, 0 … hi` of the circle exactly
+for `-L ≤ lo < 0 ≤ hi < lo + L` (`Cli.wrapSeg`); with both ends in `[-L, 0)` it reads the forward window
+shifted by `L` (`locate_neg_segment_shift`); `hi ≥ lo + L` is read as the FORWARD window `[lo + L, hi)` — a
+segment as long as the circle comes out empty, `locate_long_wrap_differs`; and an end above `L` is outside
+what `gts.Slice` accepts (`seq.Bytes()[start:end]` beyond the length: a panic, or bytes of the spare
+capacity).  The topology is not consulted: a linear record is read the same way. -/
+
+/-- **`gts extract`, a segment across the origin, forward OR backward** (`Cli.wrapSeg`: `-L ≤ lo < 0 ≤ hi <
+lo + L`).  `Segment{h, t}.Locate` is the wrap-around `gts.Slice` of the window `lo + L … L, 0 … hi` —
+`gts.Rotate(seq, -(lo + L))`, then the forward slice `[0, hi - lo)` — and for a backward segment
+`gts.Complement` and `gts.Reverse` of that.  A feature whose ROTATED location overlaps the window
+(`Cli.wsegOverlap`, the test the Go code makes) is in the emitted record with unchanged key and qualifiers at
+the location `Cli.wsegFeatLoc`, and that location denotes exactly the feature's residues inside the window, at
+their position in the emitted record, on the strand relative to the segment (`Cli.wsegPull`): input residue
+`x` of a forward segment is at `x - (h + L)` (from `h + L` on) resp. `x + L - (h + L)` (before `t`) on the
+same strand; of a backward segment — the reverse complement of the window `t + L … L, 0 … h` — at `h - t - 1`
+minus that offset, on the opposite strand; order kept.  Guards: the domain of the `Normalize` law for the
+re-origin, K2 in none of the steps (`Cli.wsegAbs`: `Expand`, `Normalize`, two `Expand`s, backward also
+`Reverse`).  The emitted record IS one of the written ones when the segment is among `Cli.extractRegs`. -/
+theorem extract_wrap_segment_piece_partial (locs : List (Seq → List Reg)) (invert : Bool) (s : Seq)
+    (h t : Int) (hr : seg h t ∈ Cli.extractRegs locs invert s) (hws : Cli.wrapSeg s.len h t = true)
+    (f : Feature) (hf : f ∈ s.feats) (hwf : f.loc.wf = true) (hnn : f.loc.nonneg = true)
+    (hpos : ∀ p ∈ f.loc.den, 0 ≤ p.1 ∧ p.1 < s.len)
+    (hok : Loc.normOk s.len (f.loc.expand 0 (C04.rotN (-((if t < h then t else h) + s.len)) s.len)) = true)
+    (hov : Cli.wsegOverlap f h t s.len = true) (hg : Cli.wsegAbs f h t s.len = false) :
+    (seg h t).locate s ∈ Cli.extract locs invert s ∧
+    ((seg h t).locate s).len = Reg.len (seg h t) ∧
+    ∃ f' ∈ ((seg h t).locate s).feats, f'.key = f.key ∧ f'.props = f.props ∧
+      f'.loc = Cli.wsegFeatLoc f h t s.len ∧
+      f'.loc.den ≼ Cli.wsegPull s.len h t f.loc.den := by
+  obtain ⟨m, _, _, d⟩ := Cli.locate_wseg_feature s h t hws f hf hwf hnn hpos hok hov
+  exact ⟨List.mem_map_of_mem (f := fun r => r.locate s) hr, Cli.locate_wseg_len s h t hws,
+    _, m, rfl, rfl, rfl, d hg⟩
+
+/-- … its residues: the window of the circle, reverse-complemented for a backward segment -/
+theorem extract_wrap_segment_bytes (s : Seq) (h t : Int) (hws : Cli.wrapSeg s.len h t = true) :
+    ((seg h t).locate s).bytes =
+      if t < h then
+        ((s.bytes.drop (t + s.len).toNat ++ s.bytes.take h.toNat).map Nuc.complementByte).reverse
+      else s.bytes.drop (h + s.len).toNat ++ s.bytes.take t.toNat := by
+  rw [Cli.locate_wseg s h t hws]
+  unfold Cli.wrapSeg at hws
+  by_cases hth : t < h
+  · simp only [hth, if_true, Bool.and_eq_true, decide_eq_true_eq] at hws ⊢
+    simp only [Seq.reverse, Seq.complement]
+    rw [C03.slice_bytes_wrap s (t + s.len) h hws.1.2 (by omega) (by omega)]
+  · simp only [hth, if_false, Bool.and_eq_true, decide_eq_true_eq] at hws ⊢
+    rw [C03.slice_bytes_wrap s (h + s.len) t hws.1.2 (by omega) (by omega)]
+
+/-- **`gts extract`, a wrap-around part inside a composite region**: `Regions.Locate` is `gts.Concat` of the
+located parts, so for `r = Regions{pre…, Segment{h, t}, post…}` with `Segment{h, t}` across the origin
+(`Cli.wrapSeg`, forward or backward) the feature of `extract_wrap_segment_piece_partial` is in `r.Locate(seq)`
+— re-located by `Expand(0, off)` unless the part is the first — and denotes the feature's residues inside the
+window at `off +` their position in the part, `off` = the number of residues emitted for the parts in front
+(`= Reg.lenList pre` when those lie inside the record or wrap themselves).  The other parts are arbitrary
+regions (nested, wrapping or not).  Additional guard: K2 not in that `Expand(0, off)`.  For a part nested more
+deeply the step is repeated (`Cli.concat_part_feature` is about any element of any `Concat`). -/
+theorem extract_wrap_part_feature_partial (s : Seq) (pre post : List Reg) (h t : Int)
+    (hws : Cli.wrapSeg s.len h t = true)
+    (f : Feature) (hf : f ∈ s.feats) (hwf : f.loc.wf = true) (hnn : f.loc.nonneg = true)
+    (hpos : ∀ p ∈ f.loc.den, 0 ≤ p.1 ∧ p.1 < s.len)
+    (hok : Loc.normOk s.len (f.loc.expand 0 (C04.rotN (-((if t < h then t else h) + s.len)) s.len)) = true)
+    (hov : Cli.wsegOverlap f h t s.len = true) (hg : Cli.wsegAbs f h t s.len = false)
+    (hgc : pre ≠ [] → Loc.expandAbs (Cli.wsegFeatLoc f h t s.len) 0
+      (Seq.concat (Reg.locateList pre s)).len = false) :
+    ∃ f' ∈ ((many (pre ++ seg h t :: post)).locate s).feats, f'.key = f.key ∧ f'.props = f.props ∧
+      f'.loc.den ≼ mapPos (· + (Seq.concat (Reg.locateList pre s)).len) (Cli.wsegPull s.len h t f.loc.den) := by
+  obtain ⟨m, w1, w2, d⟩ := Cli.locate_wseg_feature s h t hws f hf hwf hnn hpos hok hov
+  have e : Reg.locateList (pre ++ seg h t :: post) s =
+      Reg.locateList pre s ++ (seg h t).locate s :: Reg.locateList post s := by
+    simp only [Cli.locateList_eq_map, List.map_append, List.map_cons]
+  have hpre : Reg.locateList pre s ≠ [] ↔ pre ≠ [] := by
+    cases pre <;> simp [Reg.locateList]
+  obtain ⟨g', hm, hk, hp, hd⟩ := Cli.concat_part_feature (Reg.locateList pre s) (Reg.locateList post s)
+    ((seg h t).locate s) _ m w1 w2 (fun hne => hgc (hpre.mp hne))
+  refine ⟨g', ?_, hk, hp, hd.trans (mapPos_refines _ (d hg))⟩
+  simp only [Reg.locate, e]
+  exact hm
+
+/-- the offset of a part is the total length of the parts in front when those lie inside the record -/
+theorem extract_part_offset (s : Seq) (pre : List Reg) (hw : ∀ r ∈ pre, within s.len r) :
+    (Seq.concat (Reg.locateList pre s)).len = Reg.lenList pre := by
+  have := Cli.locate_len (many pre) s ((Cli.within_many_iff _ _).mpr hw)
+  simpa [Reg.locate, Reg.len] using this
+
+/-- **both ends before the origin** (`-L ≤ h, t < 0`): `gts.Slice` adds `L` to both, the segment is read as
+the segment `(h + L, t + L)` inside the record — to which `extract_features_partial` and the other theorems
+for regions inside the record apply -/
+theorem locate_neg_segment_shift (s : Seq) (h t : Int) (hh : h < 0) (hhL : -s.len ≤ h) (ht : t < 0)
+    (htL : -s.len ≤ t) : (seg h t).locate s = (seg (h + s.len) (t + s.len)).locate s := by
+  simp only [Reg.locate]
+  by_cases hth : t < h
+  · rw [if_pos hth, if_pos (by omega), Cli.slice_neg_both s t h ht (by omega) hh (by omega)]
+  · rw [if_neg hth, if_neg (by omega), Cli.slice_neg_both s h t hh (by omega) ht (by omega)]
+
+/-- **a segment across the origin that is as long as the circle, or longer, is NOT read as such** (model and
+code; `seq.slice … -3 9` answers the empty record on both sides): `Segment{-3, 9}` on twelve residues is the
+whole circle read from residue 9, twelve residues long (`Reg.len`); `gts.Slice` turns it into `Slice(9, 9)` and
+emits NOTHING — `gts extract` writes an empty record for it (a single region is written whatever its length).
+`Segment{-3, 10}`, thirteen residues, comes out as the one residue `[9, 10)`.  Outside `Cli.wrapSeg`, outside
+every theorem above, and kept out of the harness domain. -/
+theorem locate_long_wrap_differs :
+    Reg.len (seg (-3) 9) = s1.len ∧ ((seg (-3) 9).locate s1).bytes = [] ∧
+    (Cli.extract [fun _ => [seg (-3) 9]] false s1).map (·.bytes) = [[]] ∧
+    Reg.len (seg (-3) 10) = 13 ∧ ((seg (-3) 10).locate s1).bytes = [67] ∧
+    Cli.wrapSeg s1.len (-3) 9 = false ∧ Cli.wrapSeg s1.len (-3) 10 = false := by
+  decide
+
+/-- **`gts extract -v` with a located region that reaches before the origin** (model and code; `reg.invlin
+(S -3 2) 12` answers `((S 0 -3) (S 2 12))` on both sides): `gts.InvertLinear` — "linear inversion only" — sorts
+the flattened segments and emits the gaps from position 0 on; the located region `Segment{-3, 2}` on twelve
+residues (the window 9, 10, 11, 0, 1) makes it emit `Segment{0, -3}`, a BACKWARD segment across the origin — the
+reverse complement of residues 9..11, which ARE located — and `Segment{2, 12}`, which contains them once more; the
+only unlocated stretch is `[2, 9)`.  Outside the theorems (`extract_regs_within` asks for located regions inside
+the record) and kept out of the harness domain (`-v` cases stay inside `[0, L]`). -/
+theorem extract_invert_before_origin_differs :
+    (Cli.extractRegs [fun _ => [seg (-3) 2]] true s1).map Reg.leaves = [[(0, -3)], [(2, 12)]] ∧
+    (Cli.extract [fun _ => [seg (-3) 2]] true s1).map (·.bytes) =
+      [[65, 67, 71], [71, 84, 65, 67, 71, 84, 65, 67, 71, 84]] := by
+  refine ⟨by simp only [Cli.extractRegs, invertLinear_eq, minimize_eq]; decide, ?_⟩
+  simp only [Cli.extract, Cli.extractRegs, invertLinear_eq, minimize_eq]
+  decide
+
+/-- non-vacuity, backward: `gene1` (complement strand, residues 10,9,8 | 6 | 3,2,1) on the 12-residue record
+`s1`, the BACKWARD segment `(2, -3)` — the reverse complement of the window 9, 10, 11, 0, 1: the gene's
+residues 10, 9 and 1 (window offsets 1, 0, 4) come out at 3, 4 and 0, on the forward strand -/
+example : Cli.wrapSeg s1.len 2 (-3) = true ∧ gene1.loc.wf = true ∧ gene1.loc.nonneg = true ∧
+    (∀ p ∈ gene1.loc.den, 0 ≤ p.1 ∧ p.1 < s1.len) ∧
+    Loc.normOk s1.len (gene1.loc.expand 0 (C04.rotN (-((if (-3 : Int) < 2 then (-3 : Int) else 2) + s1.len)) s1.len)) = true ∧
+    Cli.wsegOverlap gene1 2 (-3) s1.len = true ∧ Cli.wsegAbs gene1 2 (-3) s1.len = false ∧
+    Cli.wsegPull s1.len 2 (-3) gene1.loc.den = [(3, false), (4, false), (0, false)] ∧
+    (((seg 2 (-3)).locate s1).feats.filter (·.key = "gene")).map (·.loc.den) =
+      [[(3, false), (4, false), (0, false)]] ∧
+    ((seg 2 (-3)).locate s1).bytes = [71, 84, 65, 67, 71] := by decide
+
+/-- non-vacuity, composite: the region `Regions{Segment{9, 5}, Segment{-3, 2}}` — a backward segment inside
+the record (four residues), then the forward segment across the origin: the gene's residues 10, 9, 1 come out
+at offset 4 + 1, 4 + 0, 4 + 4 of the emitted record `TACGCGTAC` -/
+example : Cli.wrapSeg s1.len (-3) 2 = true ∧
+    Cli.wsegOverlap gene1 (-3) 2 s1.len = true ∧ Cli.wsegAbs gene1 (-3) 2 s1.len = false ∧
+    (Seq.concat (Reg.locateList [seg 9 5] s1)).len = 4 ∧
+    Loc.expandAbs (Cli.wsegFeatLoc gene1 (-3) 2 s1.len) 0 (Seq.concat (Reg.locateList [seg 9 5] s1)).len = false ∧
+    mapPos (· + 4) (Cli.wsegPull s1.len (-3) 2 gene1.loc.den) = [(5, true), (4, true), (8, true)] ∧
+    (((many ([seg 9 5] ++ seg (-3) 2 :: [])).locate s1).feats.filter (·.key = "gene")).map (·.loc.den) =
+      [[(0, false), (2, false)], [(5, true), (4, true), (8, true)]] ∧
+    ((many ([seg 9 5] ++ seg (-3) 2 :: [])).locate s1).bytes = [84, 65, 67, 71, 67, 71, 84, 65, 67] := by decide
 
 /-! ### non-vacuity (extract) -/
 
